@@ -192,6 +192,31 @@ pub fn shifted_run_sets() -> Vec<Vec<String>> {
     v
 }
 
+/// Two or three prefixes, each followed by a unit repeated k times for every k in its own set of counts
+/// (all pairs of non-empty subsets of {1..5}): the shape in which states with different sets of repeat
+/// counts sit behind otherwise equivalent prefixes.
+pub fn count_set_cases() -> Vec<Vec<String>> {
+    let mut v = vec![];
+    for sx in 1u32..32 {
+        for sy in 1u32..32 {
+            if sx == sy {
+                continue;
+            }
+            let mut tcs = vec![];
+            for k in 0..5 {
+                if sx & (1 << k) != 0 {
+                    tcs.push(format!("x{}", "a".repeat(k + 1)));
+                }
+                if sy & (1 << k) != 0 {
+                    tcs.push(format!("y{}", "a".repeat(k + 1)));
+                }
+            }
+            v.push(tcs);
+        }
+    }
+    v
+}
+
 /// Every blank / ignorable character repeated where no atom precedes it (start of the pattern, start
 /// of a group, after `|`), for verbose mode.
 pub fn blank_repeat_cases() -> Vec<Vec<String>> {
